@@ -41,6 +41,7 @@ fn mk_vec<Fld: Field + UniformRand>(rng: &mut ChaChaRng, n: usize, kind: u8, r: 
         }
         2 => vec![Fld::zero(); n],
         3 => vec![Fld::one(); n],
+        // 5..=8: structured sparsity (see `mk_pair`): handled by the caller
         _ => (0..n).map(|i| if i % 3 == 0 { Fld::zero() } else { Fld::rand(rng) }).collect(),
     }
 }
@@ -55,6 +56,10 @@ fn of_real<G: AffineRepr>(p: &InnerProductProof<G>) -> Option<MirrorIpp<G>> {
     let mut b = vec![];
     p.serialize_compressed(&mut b).ok()?;
     MirrorIpp::<G>::deserialize_compressed(&b[..]).ok()
+}
+
+fn k_rounds_ok<G: AffineRepr>(m: &MirrorIpp<G>) -> bool {
+    m.L.len() == m.R.len() && !m.L.iter().chain(m.R.iter()).any(|p| p.is_zero())
 }
 
 /// Explicit folding under the given round challenges.
@@ -107,8 +112,30 @@ fn run_case<G: AffineRepr>(bp: &BulletproofGens<G>, curve: &str, c: &Case) -> Ca
     let Gs: Vec<G> = bp.G(2 * n, 1).cloned().collect();
     let Hs: Vec<G> = bp.H(2 * n, 1).cloned().collect();
     let Q = G::rand(&mut rng);
-    let a: Vec<F<G>> = mk_vec(&mut rng, n, c.vec_kind, &mut r);
-    let b: Vec<F<G>> = mk_vec(&mut rng, n, if c.vec_kind == 1 { 0 } else { c.vec_kind }, &mut r);
+    let mut a: Vec<F<G>> = mk_vec(&mut rng, n, if c.vec_kind >= 5 { 0 } else { c.vec_kind }, &mut r);
+    let mut b: Vec<F<G>> = mk_vec(&mut rng, n, if c.vec_kind == 1 || c.vec_kind >= 5 { 0 } else { c.vec_kind }, &mut r);
+    // structured sparsity: one round's cross term degenerates to the identity on one side only
+    //  5: a in the first half, b in the second half  -> R of the first round is the identity, L is not
+    //  6: a in the second half, b in the first half  -> L of the first round is the identity, R is not
+    //  7: a on even, b on odd positions              -> degenerate R in the last round
+    //  8: a on odd, b on even positions              -> degenerate L in the last round
+    if c.vec_kind >= 5 && n >= 2 {
+        let z = F::<G>::zero();
+        for i in 0..n {
+            let (keep_a, keep_b) = match c.vec_kind {
+                5 => (i < n / 2, i >= n / 2),
+                6 => (i >= n / 2, i < n / 2),
+                7 => (i % 2 == 0, i % 2 == 1),
+                _ => (i % 2 == 1, i % 2 == 0),
+            };
+            if !keep_a {
+                a[i] = z;
+            }
+            if !keep_b {
+                b[i] = z;
+            }
+        }
+    }
     let u = F::<G>::rand(&mut rng);
     let yinv = F::<G>::rand(&mut rng);
     let gf: Vec<F<G>> = match c.factor_kind {
@@ -199,6 +226,29 @@ fn run_case<G: AffineRepr>(bp: &BulletproofGens<G>, curve: &str, c: &Case) -> Ca
     check("correct-P", n, &m, &gf, &hf, &P, if degenerate { Some(false) } else { Some(true) }, &mut o);
     o.sig(format!("{}|k={}|vec={}|fac={}|split={}|deg={}", curve, c.k, c.vec_kind, c.factor_kind, if c.factor_kind == 1 { c.split } else { 0 }, degenerate));
     let e = |b: bool| if dense && !degenerate && b { Some(false) } else { None };
+    // adaptive forgery per round: with the round challenges observed on the honest proof, shift
+    // R_k so that the proof would open P + delta*Q if u_k did not depend on R_k
+    if k_rounds_ok(&m) {
+        let (_, log) = mon::record(|| {
+            let mut t = Transcript::new(b"ipp-monitor");
+            let _ = guarded(|| proof.verify(n, &mut t, gf.iter(), hf.iter(), &P, &Q, &Gs[..n], &Hs[..n]));
+        });
+        let (chs, _) = challenges_from_log::<G>(&log);
+        if chs.len() == m.L.len() {
+            let delta = F::<G>::from(3u64);
+            let Pd = (P.into_group() + smul(&Q, delta)).into_affine();
+            for j in 0..m.L.len() {
+                let u = chs[j].1;
+                let mut mm = m.clone();
+                mm.R[j] = (mm.R[j].into_group() - smul(&Q, u * u * delta)).into_affine();
+                check(&format!("adaptive-forgery R[{}] for P+3Q", j), n, &mm, &gf, &hf, &Pd, Some(false), &mut o);
+                let mut mm = m.clone();
+                let ui = u.inverse().unwrap_or(F::<G>::one());
+                mm.L[j] = (mm.L[j].into_group() - smul(&Q, ui * ui * delta)).into_affine();
+                check(&format!("adaptive-forgery L[{}] for P+3Q", j), n, &mm, &gf, &hf, &Pd, Some(false), &mut o);
+            }
+        }
+    }
     // wrong P
     let PQ = (P.into_group() + Q.into_group()).into_affine();
     check("P+Q (product off by one)", n, &m, &gf, &hf, &PQ, e(true), &mut o);
@@ -281,7 +331,7 @@ fn cases(ctx: &Ctx, curve: &str) -> Vec<Case> {
     let kmax = 7;
     for k in 0..=kmax {
         let n = 1usize << k;
-        for vec_kind in 0..5u8 {
+        for vec_kind in 0..9u8 {
             v.push(Case { curve: curve.into(), k, seed: r.u64(), vec_kind, factor_kind: 0, split: 0 });
             v.push(Case { curve: curve.into(), k, seed: r.u64(), vec_kind, factor_kind: 2, split: 0 });
         }
@@ -295,7 +345,7 @@ fn cases(ctx: &Ctx, curve: &str) -> Vec<Case> {
     for _ in 0..extra {
         let k = r.below(kmax as usize + 1) as u32;
         let n = 1usize << k;
-        v.push(Case { curve: curve.into(), k, seed: r.u64(), vec_kind: r.below(5) as u8, factor_kind: r.below(3) as u8, split: r.below(n + 1) });
+        v.push(Case { curve: curve.into(), k, seed: r.u64(), vec_kind: r.below(9) as u8, factor_kind: r.below(3) as u8, split: r.below(n + 1) });
     }
     v
 }
